@@ -67,6 +67,8 @@ pub enum Op {
     JoinAwait(u8),
     /// drop a join future without ever having polled it
     JoinDrop(u8),
+    /// poll a join future once and keep it; Bool(was ready)
+    JoinPollOnce(u8),
     Consume(H),
     /// consume_sync: Err at once, or a join future in the next future slot
     ConsumeSync(H),
@@ -446,6 +448,16 @@ async fn exec_op(h: &mut Handles, op: Op) -> Res {
         },
         Op::JoinAwait(k) => match h.joins.get_mut(k as usize).and_then(Option::take) {
             Some(f) => r_join(f.await),
+            None => EMPTY,
+        },
+        Op::JoinPollOnce(k) => match h.joins.get_mut(k as usize).and_then(Option::as_mut) {
+            Some(f) => match futures::poll!(f.as_mut()) {
+                std::task::Poll::Ready(v) => {
+                    h.joins[k as usize] = None;
+                    r_join(v)
+                }
+                std::task::Poll::Pending => Res::Bool(false),
+            },
             None => EMPTY,
         },
         Op::JoinDrop(k) => match h.joins.get_mut(k as usize).and_then(Option::take) {
